@@ -444,7 +444,7 @@ func (e *Enc) applyContract(fr *Frame, st *State, c *Contract, args []*Val, rt t
 			e.assumedUsed[c.Key]++
 		}
 	}
-	if e.top != nil && e.top.contract != nil && e.top.contract.Deterministic && e.dry == 0 && !c.Deterministic && !c.Assumed && !c.Pure && c.funcType == "" && strings.HasSuffix(c.File, ".go") {
+	if e.top != nil && e.top.contract != nil && e.top.contract.Deterministic && e.dry == 0 && !c.Deterministic && !c.Assumed && !c.Pure && c.funcType == "" && strings.HasSuffix(c.File, ".go") && !(c.Sig != nil && c.Sig.Recv() != nil && types.IsInterface(c.Sig.Recv().Type())) {
 		// a verified function of the repository that is not itself checked for node-local sources
 		e.addObl(&Obligation{Name: e.site(fr, "nondet:callee-not-deterministic:"+c.Key, pos), Kind: "deterministic", Label: e.top.contract.DetLabel, Clause: "deterministic — callee " + c.Key + " has a contract without a `deterministic` clause", Reach: st.reach, Goal: "false", Pos: e.posStr(pos)})
 	}
@@ -501,6 +501,10 @@ func (e *Enc) applyContract(fr *Frame, st *State, c *Contract, args []*Val, rt t
 			e.havocAll(st)
 		} else {
 			menv := &Env{e: e, vars: vars, st: pre, old: pre, pkgPath: c.PkgPath, imports: c.Imports, cells: e.applyCells}
+			// the callee may allocate and may store what it allocated into the targets it modifies: the allocation counter
+			// moves BEFORE the targets are havocked, so that the typing fact "a reference read from memory is <= alloc" of a
+			// havocked reference leaf refers to the counter AFTER the call (it contradicted `ensures fresh(p.f)` otherwise)
+			e.bumpAlloc(st)
 			for i, m := range c.Modifies {
 				cond := "true"
 				if i < len(c.ModWhen) && c.ModWhen[i] != nil {
@@ -549,7 +553,6 @@ func (e *Enc) applyContract(fr *Frame, st *State, c *Contract, args []*Val, rt t
 					st.heap[k] = n
 				}
 			}
-			e.bumpAlloc(st)
 		}
 		if !c.Assumed {
 			// a verified callee may have handed out identities of the allocator ghost variables (not part of its frame)
